@@ -83,6 +83,7 @@ class Shard:
         self._known_keys = frozenset(known_keys)
         self._known_sigs = frozenset(known_sigs)
         self.known_hits = {}
+        self.viol_classes = {}
         self.lo, self.hi = lo, hi
         self.evaluations = 0
         self.transitions = 0
@@ -156,6 +157,8 @@ class Shard:
             self.known_hits[k] = self.known_hits.get(k, 0) + 1
             return
         self.n_violations += 1
+        cls = sig if sig is not None else "|".join(key.split("|")[:2])
+        self.viol_classes[cls] = self.viol_classes.get(cls, 0) + 1
         if len(self.violations) < MAX_VIOL_PER_SHARD:
             self.violations.append({
                 "space": self.space, "rank": int(rank), "key": str(key), "sig": sig,
